@@ -28,3 +28,21 @@ def run(ctx):
             return src.split('以果（后增：')[-1].rsplit('输出', 1)[0]
         return src.split('输出')[-1]
     progs.run_stream(ctx, 'expr', ps, nontrivial=lambda src, go: sum(expr_text(src).count(c) for c in ops) >= 2)
+    # soak: the value of an expression does not depend on how many expressions were evaluated — or failed and were handled —
+    # before it in the same run
+    from zngen import Program, Func, Decl, While, ExprS, Assign, Ret, Bin, Num, Var, Call, Str
+    soak = []
+    for n_faults, nest in ((300, 1), (2500, 1), (3500, 1), (400, 8), (2200, 3)):   # the model evaluator has fuel for 4000 passes
+        bad = Bin('/', Num('1'), Var('数'))
+        for _ in range(nest - 1):
+            bad = Bin('+', Num('1'), bad)
+        kinds = [bad, Bin('+', Str('文'), Var('数')), Bin('gt', Var('数'), Str('文')), Bin('and', Var('数'), Var('真'))]
+        for k in kinds[:2 if ctx.quick() else 4]:
+            body = [Func('试', ['数'], [Ret(k)], [('异常', [Ret(Num('0'))])]),
+                    Decl(['计'], Num('0')), Decl(['和'], Num('0')),
+                    While(Bin('lt', Var('计'), Num(str(n_faults))),
+                          [ExprS(Assign(Var('计'), Bin('+', Var('计'), Num('1')))),
+                           ExprS(Assign(Var('和'), Bin('+', Var('和'), Call('试', [Num('0')]))))]),
+                    Ret(Bin('|', Bin('-', Bin('*', Bin('+', Var('和'), Num('1')), Num('2')), Var('计')), Num('3')))]
+            soak.append((Program([], body), {}))
+    progs.run_stream(ctx, 'soak', soak, nontrivial=lambda src, go: True)
